@@ -16,7 +16,7 @@ Lemma lock_is_spec_str fx net d :
   out_is (lib_out_addr_str H160 fx net (spec_address net d))
          (spec_lock_script d) (stype_name (d_stype d)) (nw_name net) OaGiven.
 Proof.
-  intros Hn Hstd Hg. destruct fx as [fw fn fp tb0]. cbn [fx_witver] in Hg.
+  intros Hn Hstd Hg. destruct fx as [fw fn fp fa tb0]. cbn [fx_witver] in Hg.
   std_shapes d Hstd; (each_net Hn; (destruct fw; first [ out_ok | guard_false Hg ])).
 Qed.
 
@@ -33,7 +33,7 @@ Proof.
     [ | apply tb_of; exact Htb | reflexivity | reflexivity | exact I
       | cbn [a_addr a_hash a_pubkey a_lock]; destruct (std_payload_cons d Hstd) as (pa & pr & ->); reflexivity ].
   cbn [a_lock].
-  destruct fx as [fw fn fp tb0]. cbn [fx_witver] in Hg. cbn [fx_tb] in Htb.
+  destruct fx as [fw fn fp fa tb0]. cbn [fx_witver] in Hg. cbn [fx_tb] in Htb.
   std_shapes d Hstd; cbn [d_payload] in Htb;
     (each_net Hn; (destruct fw; first [ guard_false Hg | out_k Htb Hp ])).
 Qed.
